@@ -29,7 +29,9 @@ import (
 	"encoding/json"
 	"fmt"
 	"os"
+	"math"
 	"sort"
+	"strconv"
 	"strings"
 	"sync"
 	"testing"
@@ -65,6 +67,7 @@ type hOp struct {
 	Idx    int      `json:"ix,omitempty"` // unique index value
 	During bool     `json:"du,omitempty"` // write/delrow: a cached read of the row inside the exec callback, before the DB changes
 	NoIdx  bool     `json:"ni,omitempty"` // write that keeps the index value: do not name the index key
+	Pay    int      `json:"py,omitempty"` // write: which payload (large integers, floats, strings needing escapes) the row carries
 	Keys   []string `json:"ks,omitempty"` // delcache/setcache: "p<id>" / "i<idx>"
 	D      int      `json:"d,omitempty"`  // adv: seconds
 	Offs   []int    `json:"of,omitempty"` // conc: start offsets of the readers, ms
@@ -80,15 +83,74 @@ type hCase struct {
 	Ctor    string `json:"ctor"` // node | conf (single node through NewNodeConn or NewConn)
 	Expire  int    `json:"e"`    // seconds
 	NFExp   int    `json:"nfe"`  // seconds
+	PKKind  string   `json:"pkk,omitempty"` // "" / int: int64 primary keys (PKs), str: string primary keys (SPKs)
+	PKs     []int64  `json:"pk,omitempty"`  // primary key VALUE of each of the 6 rows (default 0..5)
+	SPKs    []string `json:"spk,omitempty"`
 	Salt    int    `json:"salt"` // key name salt: varies the placement on the ring
 	OffMs   int    `json:"off"`  // operations happen OffMs after a tick of the clean wheel
 	Ops     []hOp  `json:"ops"`
 }
 
+// hRow is what the "database" stores and what every read must return EXACTLY,
+// whether it comes from the callback, from the cache or from another
+// reader's shared flight.
 type hRow struct {
-	ID  int
+	ID  int    // row number 0..5 (harness bookkeeping)
+	PK  int64  // primary key value (int kind)
+	SPK string // primary key value (str kind)
 	Idx int
 	Val int
+	Big int64
+	U   uint64
+	F   float64
+	S   string
+}
+
+var (
+	c06Bigs = []int64{0, 1, -1, 1 << 53, 1<<53 + 1, -(1 << 53) - 1, 1234567890123456789, math.MaxInt64, math.MinInt64, 4611686018427387905}
+	c06Us   = []uint64{0, 1, 1<<53 + 1, 1 << 63, math.MaxUint64}
+	c06Fs   = []float64{0, 0.1, -1.5, 1e21, 1e-7, math.MaxFloat64, math.SmallestNonzeroFloat64, 123456789.12345679, 9007199254740993}
+	c06Ss   = []string{"", "plain", `q"uote\back/slash`, "line\nbreak\ttab\r", "<html>&amp;'", "日本語 ✓ 🎉", "\u2028\u2029\u0000\u001f", "*", "null", `{"ID":1}`}
+)
+
+func c06Payload(row *hRow, pay int) {
+	if pay < 0 {
+		pay = -pay
+	}
+	row.Big = c06Bigs[pay%len(c06Bigs)]
+	row.U = c06Us[(pay/3)%len(c06Us)]
+	row.F = c06Fs[(pay/5)%len(c06Fs)]
+	row.S = c06Ss[(pay/7)%len(c06Ss)]
+}
+
+// pkText is the textual form of row id's primary key value ("" if none).
+func (r *hRun) pkText(id int) string {
+	if id < 0 || id >= c06NIDs {
+		return ""
+	}
+	if r.c.PKKind == "str" {
+		return r.c.SPKs[id]
+	}
+	return strconv.FormatInt(r.c.PKs[id], 10)
+}
+
+// pkValue is what the index query returns as the primary key (int64 or string).
+func (r *hRun) pkValue(id int) any {
+	if r.c.PKKind == "str" {
+		return r.c.SPKs[id]
+	}
+	return r.c.PKs[id]
+}
+
+// slotOf finds the row whose primary key prints as txt (-1: none: the
+// primary key handed back by the cache layer is not one the database knows).
+func (r *hRun) slotOf(txt string) int {
+	for id := 0; id < c06NIDs; id++ {
+		if r.pkText(id) == txt {
+			return id
+		}
+	}
+	return -1
 }
 
 type hTask struct {
@@ -134,7 +196,7 @@ type hRun struct {
 	known      string
 }
 
-func (r *hRun) pkey(id int) string  { return fmt.Sprintf("p%d:%d", r.c.Salt, id) }
+func (r *hRun) pkey(id int) string  { return fmt.Sprintf("p%d:%s", r.c.Salt, r.pkText(id)) }
 func (r *hRun) ikey(idx int) string { return fmt.Sprintf("i%d:%d", r.c.Salt, idx) }
 
 func (r *hRun) failf(format string, a ...any) {
@@ -153,21 +215,6 @@ func ceilDiv(a, b int) int { return (a + b - 1) / b }
 
 // ttlBounds: ceil(0.95 e) .. ceil(1.05 e) seconds.
 func ttlBounds(e int) (lo, hi int) { return ceilDiv(e*95, 100), ceilDiv(e*105, 100) }
-
-func toInt(v any) int {
-	switch x := v.(type) {
-	case int:
-		return x
-	case int64:
-		return int(x)
-	case float64:
-		return int(x)
-	case json.Number:
-		n, _ := x.Int64()
-		return int(n)
-	}
-	return -1
-}
 
 func (r *hRun) nowTick() int { return int(time.Since(r.start) / time.Second) }
 
@@ -202,13 +249,16 @@ func (r *hRun) leave(key string) {
 // the three "SQL" callbacks: they read the reference map and count.
 func (r *hRun) primaryQuery(id int, v any) error {
 	key := r.pkey(id)
+	if id < 0 {
+		key = "unknown primary key"
+	}
 	r.enter(key)
 	defer r.leave(key)
 	r.mu.Lock()
 	defer r.mu.Unlock()
 	r.priCalls[id]++
 	row, ok := r.db[id]
-	if !ok {
+	if !ok || id < 0 {
 		return sqlc.ErrNotFound
 	}
 	*v.(*hRow) = row
@@ -227,7 +277,7 @@ func (r *hRun) indexQuery(idx int, v any) (any, error) {
 		return nil, sqlc.ErrNotFound
 	}
 	*v.(*hRow) = row
-	return row.ID, nil
+	return r.pkValue(row.ID), nil
 }
 
 func (r *hRun) queryRow(id int) (hRow, error) {
@@ -239,9 +289,9 @@ func (r *hRun) queryRow(id int) (hRow, error) {
 func (r *hRun) queryRowIndex(idx int) (hRow, error) {
 	var row hRow
 	err := r.cc.QueryRowIndex(&row, r.ikey(idx),
-		func(primary any) string { return r.pkey(toInt(primary)) },
+		func(primary any) string { return fmt.Sprintf("p%d:%v", r.c.Salt, primary) },
 		func(_ sqlx.Conn, v any) (any, error) { return r.indexQuery(idx, v) },
-		func(_ sqlx.Conn, v, primary any) error { return r.primaryQuery(toInt(primary), v) })
+		func(_ sqlx.Conn, v, primary any) error { return r.primaryQuery(r.slotOf(fmt.Sprint(primary)), v) })
 	return row, err
 }
 
@@ -434,6 +484,9 @@ func (r *hRun) doReadIndex(what string, idx int) {
 		pcalls += n
 	}
 	anyGetFailed := len(b.getFailed) > 0
+	if n := r.priCalls[-1]; n > 0 && !wasDirty {
+		r.failf("%s: the primary query was called %d time(s) with a primary key the database never returned for this index value", what, n)
+	}
 	switch {
 	case anyGetFailed:
 		r.classes["readidx-get-fault"] = true
@@ -444,7 +497,7 @@ func (r *hRun) doReadIndex(what string, idx int) {
 			r.failf("%s: GET %s failed with a redis error and the database was queried", what, ik)
 		}
 		for id, n := range r.priCalls {
-			if b.getFailed[r.pkey(id)] && n != 0 {
+			if id >= 0 && b.getFailed[r.pkey(id)] && n != 0 {
 				r.failf("%s: GET %s failed with a redis error and the database was queried", what, r.pkey(id))
 			}
 		}
@@ -576,7 +629,14 @@ func (r *hRun) doWrite(what string, o hOp, del bool) {
 			delete(r.db, o.ID)
 		} else {
 			r.ver++
-			r.db[o.ID] = hRow{ID: o.ID, Idx: o.Idx, Val: r.ver}
+			row := hRow{ID: o.ID, Idx: o.Idx, Val: r.ver}
+			if r.c.PKKind == "str" {
+				row.SPK = r.c.SPKs[o.ID]
+			} else {
+				row.PK = r.c.PKs[o.ID]
+			}
+			c06Payload(&row, o.Pay)
+			r.db[o.ID] = row
 		}
 		r.mu.Unlock()
 		return nil, nil
@@ -648,7 +708,7 @@ func (r *hRun) doSetCache(what string, o hOp) {
 				r.classes["skipped"] = true
 				continue
 			}
-			err = r.cc.SetCache(r.ikey(row.Idx), row.ID)
+			err = r.cc.SetCache(r.ikey(row.Idx), r.pkValue(row.ID))
 		default:
 			continue
 		}
@@ -810,6 +870,9 @@ func (r *hRun) doConc(what string, o hOp) {
 	if o.ViaIdx {
 		calls = r.idxCalls[o.Idx]
 	}
+	if n := r.priCalls[-1]; n > 0 && !wasDirty {
+		r.failf("%s: the primary query was called %d time(s) with a primary key the database never returned for this index value", what, n)
+	}
 	overlap := 0
 	first := o.Offs[0]
 	for _, off := range o.Offs {
@@ -848,6 +911,17 @@ func c06HistInterp(t *testing.T, c hCase) (v kit.Verdict) {
 	r := &hRun{t: t, c: c, db: map[int]hRow{}, ph: map[string]int{}, cached: map[string]int{}, dirty: map[string]bool{},
 		keyNode: map[string]int{}, invalid: map[string]bool{}, priCalls: map[int]int{}, idxCalls: map[int]int{},
 		active: map[string]int{}, classes: map[string]bool{}}
+	if c.PKKind == "" && len(c.PKs) == 0 {
+		c.PKs = []int64{0, 1, 2, 3, 4, 5}
+		r.c = c
+	}
+	seen := map[string]bool{}
+	for id := 0; id < c06NIDs; id++ {
+		if (c.PKKind == "str" && len(c.SPKs) != c06NIDs) || (c.PKKind != "str" && len(c.PKs) != c06NIDs) || seen[r.pkText(id)] {
+			return kit.Verdict{Excluded: true}
+		}
+		seen[r.pkText(id)] = true
+	}
 	n := len(c.Weights)
 	if n < 1 || n > len(cache.C06Srvs) || c.Expire < 1 || c.NFExp < 1 {
 		return kit.Verdict{Excluded: true}
@@ -1008,6 +1082,20 @@ func c06HistGen(rt *rapid.T) hCase {
 		OffMs:  rapid.IntRange(1, 998).Draw(rt, "off"),
 		Ctor:   rapid.SampledFrom([]string{"node", "conf"}).Draw(rt, "ctor"),
 	}
+	// primary key VALUES are part of the case: small, around 2^21 (where %v of a
+	// float64 switches to exponent form), around 2^53, near the int64 limits,
+	// negative, arbitrary; or strings that need escaping / look like numbers
+	if rapid.IntRange(0, 3).Draw(rt, "strkeys") == 0 {
+		c.PKKind = "str"
+		pool := []string{"a", "B b", `q"x`, `back\slash`, "日本", "12", "1e3", "9007199254740993", "true", "null", "x:y", "ü", "*", "tab\there", "<k>&", "🎉"}
+		for _, i := range rapid.SliceOfNDistinct(rapid.IntRange(0, len(pool)-1), c06NIDs, c06NIDs, rapid.ID[int]).Draw(rt, "spk") {
+			c.SPKs = append(c.SPKs, pool[i])
+		}
+	} else {
+		pool := []int64{0, 1, 2, 7, -1, -7, 1234567, 2097153, 21000000, 4294967297, 1<<53 - 1, 1 << 53, 1<<53 + 1, 1<<53 + 2, -(1 << 53) - 1,
+			1234567890123456789, 1234567890123456768, math.MaxInt64, math.MaxInt64 - 1, math.MinInt64, 1<<62 + 1}
+		c.PKs = rapid.SliceOfNDistinct(rapid.OneOf(rapid.SampledFrom(pool), rapid.SampledFrom(pool), rapid.Int64()), c06NIDs, c06NIDs, rapid.ID[int64]).Draw(rt, "pk")
+	}
 	nn := rapid.SampledFrom([]int{1, 1, 2, 3}).Draw(rt, "nodes")
 	for i := 0; i < nn; i++ {
 		c.Weights = append(c.Weights, rapid.SampledFrom([]int{10, 50, 100}).Draw(rt, "weight"))
@@ -1081,6 +1169,7 @@ func c06HistGen(rt *rapid.T) hCase {
 				o.Idx = rapid.SampledFrom(free).Draw(rt, "idx")
 			}
 			o.During = rapid.IntRange(0, 3).Draw(rt, "during") == 0
+			o.Pay = rapid.IntRange(0, 349).Draw(rt, "payload")
 			rows[o.ID] = o.Idx
 		case "idxstale":
 			// index entry cached, row rewritten without naming the (unchanged) index key, index read
@@ -1091,7 +1180,7 @@ func c06HistGen(rt *rapid.T) hCase {
 			id := rapid.SampledFrom(ids).Draw(rt, "id")
 			c.Ops = append(c.Ops, hOp{K: "readidx", Idx: rows[id]})
 			if rapid.Bool().Draw(rt, "viawrite") {
-				c.Ops = append(c.Ops, hOp{K: "write", ID: id, Idx: rows[id], NoIdx: true})
+				c.Ops = append(c.Ops, hOp{K: "write", ID: id, Idx: rows[id], NoIdx: true, Pay: rapid.IntRange(0, 349).Draw(rt, "payload")})
 			} else {
 				c.Ops = append(c.Ops, hOp{K: "delcache", Keys: []string{fmt.Sprintf("p%d", id)}})
 			}
